@@ -407,7 +407,8 @@ def r12_3_6(ctx, A):
             rt = g.local_ty(tgt[0])
             if (A.builder + '<') in rt and tgt[1] in regf and len(tgt) == 2:
                 repl.append((g, bid))
-            if rt.replace('&mut ', '').lstrip("&'{}erasd ").startswith(REG) and table_f is not None and tgt[1] == table_f and len(tgt) == 2:
+            rt0 = re.sub(r"^&\s*('\{?\w*\}?\s+)?(mut\s+)?", '', rt)
+            if rt0.startswith(REG) and table_f is not None and tgt[1] == table_f and len(tgt) == 2:
                 repl.append((g, bid))
     ctx.check(R3, bool(regf) and not repl, 'cache-created-once', 'the node cache is replaced after construction in %s: every node registered so far is forgotten and later equal nodes are emitted again' % sorted({g.path for g, _ in repl}),
               fn=repl[0][0] if repl else None)
